@@ -14,6 +14,8 @@
 #include <etl/_type_traits/bool_constant.hpp>
 #include <etl/_type_traits/is_copy_constructible.hpp>
 #include <etl/_type_traits/is_invocable_r.hpp>
+#include <etl/_type_traits/is_member_pointer.hpp>
+#include <etl/_type_traits/is_pointer.hpp>
 #include <etl/_utility/exchange.hpp>
 #include <etl/_utility/forward.hpp>
 #include <etl/_utility/swap.hpp>
@@ -139,6 +141,14 @@ public:
             Alignment % alignof(C) == 0,
             "inplace_function cannot be constructed from object with this (large) alignment"
         );
+
+        // a null function pointer or null member pointer is not a target: the function is empty
+        if constexpr (is_pointer_v<C> or is_member_pointer_v<C>) {
+            if (closure == nullptr) {
+                _vtable = etl::addressof(detail::empty_vtable<R, Args...>);
+                return;
+            }
+        }
 
         static constexpr vtable_t const vt{detail::wrapper<C>{}};
         _vtable = etl::addressof(vt);
